@@ -14,7 +14,34 @@
  * Printing
  * ======================================================================== */
 
+/* Containers can be nested arbitrarily deep and - because arrays are mutable and
+ * shared by reference - can contain themselves.  Printing keeps the chain of
+ * containers it is currently inside: a container met again on that chain, or
+ * nesting beyond VAL_PRINT_MAX_DEPTH, is shown as "..." instead of recursing
+ * without bound on the C stack. */
+#define VAL_PRINT_MAX_DEPTH 64
+
+static void val_print_rec(NanoValue v, FILE *out, const void **path, int depth);
+
 void val_print(NanoValue v, FILE *out) {
+    const void *path[VAL_PRINT_MAX_DEPTH];
+    val_print_rec(v, out, path, 0);
+}
+
+static void val_print_rec(NanoValue v, FILE *out, const void **path, int depth) {
+    if ((v.tag == TAG_ARRAY || v.tag == TAG_STRUCT || v.tag == TAG_UNION || v.tag == TAG_TUPLE) && v.as.obj) {
+        if (depth >= VAL_PRINT_MAX_DEPTH) {
+            fprintf(out, "...");
+            return;
+        }
+        for (int i = 0; i < depth; i++) {
+            if (path[i] == v.as.obj) {
+                fprintf(out, "...");
+                return;
+            }
+        }
+        path[depth] = v.as.obj;
+    }
     switch (v.tag) {
         case TAG_VOID:
             fprintf(out, "void");
@@ -53,7 +80,7 @@ void val_print(NanoValue v, FILE *out) {
                 fprintf(out, "[");
                 for (uint32_t i = 0; i < v.as.array->length; i++) {
                     if (i > 0) fprintf(out, ", ");
-                    val_print(v.as.array->elements[i], out);
+                    val_print_rec(v.as.array->elements[i], out, path, depth + 1);
                 }
                 fprintf(out, "]");
             } else {
@@ -68,7 +95,7 @@ void val_print(NanoValue v, FILE *out) {
                     if (v.as.sval->field_names && v.as.sval->field_names[i]) {
                         fprintf(out, "%s: ", vmstring_cstr(v.as.sval->field_names[i]));
                     }
-                    val_print(v.as.sval->fields[i], out);
+                    val_print_rec(v.as.sval->fields[i], out, path, depth + 1);
                 }
                 fprintf(out, "}");
             } else {
@@ -80,7 +107,7 @@ void val_print(NanoValue v, FILE *out) {
                 fprintf(out, "variant(%u", v.as.uval->variant);
                 for (uint32_t i = 0; i < v.as.uval->field_count; i++) {
                     fprintf(out, ", ");
-                    val_print(v.as.uval->fields[i], out);
+                    val_print_rec(v.as.uval->fields[i], out, path, depth + 1);
                 }
                 fprintf(out, ")");
             } else {
@@ -92,7 +119,7 @@ void val_print(NanoValue v, FILE *out) {
                 fprintf(out, "(");
                 for (uint32_t i = 0; i < v.as.tuple->count; i++) {
                     if (i > 0) fprintf(out, ", ");
-                    val_print(v.as.tuple->elements[i], out);
+                    val_print_rec(v.as.tuple->elements[i], out, path, depth + 1);
                 }
                 fprintf(out, ")");
             } else {
